@@ -799,6 +799,11 @@ func (p *pkg) exprType(e ast.Expr, idx, depth int) ast.Expr {
 				return intT
 			}
 		case *ast.SelectorExpr:
+			if id, ok := f.X.(*ast.Ident); ok && id.Obj == nil {
+				if path := p.importedAs(id.Name); path == "errors" && f.Sel.Name == "New" || path == "fmt" && f.Sel.Name == "Errorf" {
+					return ast.NewIdent("error")
+				}
+			}
 			if tn := p.named(p.exprType(f.X, 0, depth+1)); tn != "" {
 				if ft := p.ifaceMethodType(tn, f.Sel.Name); ft != nil {
 					return res(ft)
@@ -939,8 +944,26 @@ func lines(items []string) string {
 func atomicityV(pkgs []*pkg) string {
 	var b strings.Builder
 	b.WriteString(coqHeader)
-	var regions, outside, all, entries, atomics, pools, caps, gocount, errs []string
+	var regions, outside, all, entries, atomics, pools, caps, gocount, errs, pvars []string
 	for _, p := range pkgs {
+		var vnames []string
+		for name := range p.pkgVars {
+			if name != "_" {
+				vnames = append(vnames, name)
+			}
+		}
+		sort.Strings(vnames)
+		for _, name := range vnames {
+			vs := p.pkgVars[name]
+			t := vs.Type
+			for i, nm := range vs.Names {
+				if t == nil && nm.Name == name && len(vs.Values) == len(vs.Names) {
+					t = p.exprType(vs.Values[i], 0, 0)
+				}
+			}
+			kind, text := p.classify(t)
+			pvars = append(pvars, fmt.Sprintf("(%s, %s, %s)", coqStr(p.name+"."+name), coqStr(kind), coqStr(text)))
+		}
 		var ns []*node
 		for _, d := range p.decls {
 			ns = append(ns, p.node(d, nil))
@@ -1058,6 +1081,8 @@ func atomicityV(pkgs []*pkg) string {
 	b.WriteString("(* go statements per function, and the local variables each one shares with its spawner:\n   (function, index of the go statement, variable, kind of type, type, iteration/outer) *)\n")
 	b.WriteString("Definition go_statements : list (string * nat) := " + lines(gocount) + ".\n")
 	b.WriteString("Definition goroutine_captures : list (string * nat * string * string * string * string) := " + lines(caps) + ".\n")
+	b.WriteString("(* package-level variables (shared by all goroutines): (package.name, kind of type, type) *)\n")
+	b.WriteString("Definition package_vars : list (string * string * string) := " + lines(pvars) + ".\n")
 	b.WriteString("Definition atomicity_errors : list string := " + lines(es) + ".\n")
 	return b.String()
 }
